@@ -11,102 +11,102 @@ HERE = os.path.dirname(os.path.dirname(os.path.abspath(__file__)))
 T = {
  "C01": dict(
     technique="static analysis: effect/purity summaries, presence-guard table with closure and cycle rules, alias analysis of cached values, protocol order in __getitem__ (ast + dataflow)",
-    category="other", design="DESIGN.md section 4 C01, section 3 E1/E2",
+    category="other", design="DESIGN.md section 9.2 and section 4 C01, section 3 E1/E2",
     text="Structural theorem: a value is a function of (inputs, options) alone if quantity methods are pure, cached values are never modified, and every `'k' in self.data` guard is history-insensitive. The check establishes these three premises on all methods and all guard sites of the current source.",
     note="Assumes the two formulas of an alternative-derivation guard agree (3+1 identities, frozen table); discretisation error not decided; F5 (rho/rho0/eps cycle) is a listed known finding."),
  "C02": dict(
     technique="static analysis: interprocedural alias/ownership dataflow with mutation sinks (ast)",
-    category="other", design="DESIGN.md section 4 C02, section 3 E2",
+    category="other", design="DESIGN.md section 9.2 and section 4 C02, section 3 E2",
     text="Ownership discipline over core.py, time.py, reading.py, maths.py, finitedifference.py, numerical.py: no in-place sink (augmented assignment, subscript store, mutating method, out=) is reachable from a value that may share storage with a cached value, an fd attribute, or a caller-owned argument.",
     note="numpy/scipy/h5py internals trusted not to mutate arguments passed without out=."),
  "C03": dict(
     technique="static analysis: typestate/pairing rules on the cache protocol (who-may-delete, paired deletion, strain factor, must-freeze dominance, termination ranking) over a statement CFG",
-    category="other", design="DESIGN.md section 4 C03",
+    category="other", design="DESIGN.md section 9.2 and section 4 C03",
     text="Every deletion site, the removal predicates, the freeze points and the loops of cleanup_cache are enumerated and decided structurally on all paths.",
     note="Domain: clear_cache_every_nbr_calc >= 1, memory_threshold_inGB > 0; users do not delete from rel.data by hand."),
  "C04": dict(
-    technique="static analysis: tensor index-type checking of every einsum/helper call, canonical tensor-polynomial comparison with reference term tables, unrolled index tables (ast, exact arithmetic)",
-    category="other", design="DESIGN.md section 4 C04, section 3 E3/E4",
+    technique="static analysis: abstract interpretation of the tensor code (ast) into exact componentwise polynomials over opaque field atoms with per-slot index variance; einsum index-discipline rules; equality with reference index formulas evaluated in the same domain, per reachable configuration (vacuum flag, presence guards); unrolled symmetry/completeness table of populate_4Riemann",
+    category="other", design="DESIGN.md section 9.2 and section 4 C04, section 3 E3/E4",
     text="Necessary conditions of C04 decided for every input at once: index discipline (variance, dimension, slot order) of all contractions; the written form of gdown4/gdet/gtt, the six 3+1 Christoffel blocks, Gauss/Codazzi/Mainardi pieces and contractions equals validated reference term lists in canonical form; populate_4Riemann table is conflict-free, symmetric and complete; vacuum branches differ only by matter terms.",
     note="Convergence at the scheme's order is not decided; reference term lists were validated once against finite-differenced 4D definitions (findings/validate_core.py)."),
  "C05": dict(
-    technique="static analysis: per-branch tensor typing of the derivative helpers, sign/position discipline rules, exact 27-entry Christoffel table, reference term agreement (ast, exact arithmetic)",
-    category="other", design="DESIGN.md section 4 C05",
-    text="Every branch of s_covd/st_covd/s_div/s_curl/Lie_beta is typed and its Christoffel / shift-derivative corrections are checked for sign and slot position; the hand-written Christoffel table and the Riemann/Ricci definitions (direct and BSSNOK split) are compared with reference term lists in canonical form.",
+    technique="static analysis: abstract interpretation of the tensor code (ast) into exact componentwise polynomials over opaque field atoms with per-slot index variance; einsum index-discipline rules; equality with reference index formulas evaluated in the same domain, per reachable configuration (vacuum flag, presence guards); the derivative helpers are interpreted on generic tensors for every supported index pattern",
+    category="other", design="DESIGN.md section 9.2 and section 4 C05",
+    text="Every supported index pattern of s_covd/st_covd/s_div/s_curl/Lie_beta is interpreted on a generic tensor and equals the operator's definition component by component (sign and slot position of every Christoffel / shift-derivative correction, density weight); the hand-written 27-entry Christoffel table and the Riemann/Ricci definitions (direct and BSSNOK split) equal their reference formulas.",
     note="Convergence not decided."),
  "C06": dict(
-    technique="static analysis: canonical tensor-polynomial comparison of the constraint and dt-equations with reference term lists, density-weight rule, vacuum-branch rule, sibling identities (ast, exact arithmetic)",
-    category="other", design="DESIGN.md section 4 C06",
+    technique="static analysis: abstract interpretation of the tensor code (ast) into exact componentwise polynomials over opaque field atoms with per-slot index variance; einsum index-discipline rules; equality with reference index formulas evaluated in the same domain, per reachable configuration (vacuum flag, presence guards)",
+    category="other", design="DESIGN.md section 9.2 and section 4 C06",
     text="The written form of Hamiltonian, Momentum, dtKtrace, dtphi, dtgammaup3, dtgammadown3_bssnok, dtAdown3_bssnok, dts_Gamma_bssnok equals the cited textbook equations term by term (sign, coefficient, index pattern), for every input at once.",
     note="Convergence to the true time derivative not decided; helper correctness is C05."),
  "C07": dict(
     technique="static analysis: exact rational stencil extraction + moment conditions (proof obligations), affine segment arithmetic of the boundary splices with symbolic N, permutation/axis rules (ast, fractions)",
-    category="proof", design="DESIGN.md section 4 C07",
+    category="proof", design="DESIGN.md section 9.2 and section 4 C07",
     text="Proof for all grid sizes, orders, boundary modes, axes and ranks: the 72 moment conditions pin the 12 stencils to the unique standard weights (exact on polynomials of degree <= p); the splices tile [0,N) once with in-range subscripts for N >= 3p/2, periodic/symmetric extensions map index j to (j-m) mod N / the mirror image; y,z operators are the x operator under axis exchange; tensor maps act componentwise in index order.",
     note="Floating-point round-off of the weights and of the sums is not part of the claim; numpy slicing/concatenate/transpose/pad semantics are modelled, not executed."),
  "C08": dict(
-    technique="static analysis: polynomial normal forms (determinant/adjugate identities as proof obligations), guard-dominance of every division, unrolled symmetry table of populate_4Riemann, tensor typing of raise/lower keys (ast, exact arithmetic)",
-    category="proof", design="DESIGN.md section 4 C08",
-    text="Proof of the algebraic identities for all inputs: det3/det4 equal the Leibniz expansion, inverse*metric = det*identity entrywise (25 polynomial identities), safe_division divides only under a zero test of the same divisor and returns literal zeros otherwise, populate_4Riemann has the Riemann symmetries, raise/lower keys contract the right metric with the right slot, trace-free and conformal-weight literals are consistent.",
+    technique="static analysis: polynomial normal forms (determinant/adjugate identities as proof obligations), guard-dominance of every division, unrolled symmetry table of populate_4Riemann, abstract interpretation of every raise/lower/trace key against its definition, tensor-vs-components bypass rule over the dependency graph (ast, exact arithmetic)",
+    category="proof", design="DESIGN.md section 9.2 and section 4 C08",
+    text="Proof of the algebraic identities for all inputs: det3/det4 equal the Leibniz expansion, inverse*metric = det*identity entrywise (25 polynomial identities), safe_division divides only under a zero test of the same divisor and returns literal zeros otherwise, populate_4Riemann has the Riemann symmetries, raise/lower keys contract the right metric with the right slot, trace-free and conformal-weight literals are consistent; a quantity offered both as a tensor and as components gives one value however it was supplied.",
     note="Round-off for badly scaled metrics is not decided."),
  "C09": dict(
-    technique="static analysis: tensor index-type checking + canonical comparison with reference definitions of u, h, T and the Eulerian projections (ast, exact arithmetic)",
-    category="other", design="DESIGN.md section 4 C09",
+    technique="static analysis: abstract interpretation of the tensor code (ast) into exact componentwise polynomials over opaque field atoms with per-slot index variance; einsum index-discipline rules; equality with reference index formulas evaluated in the same domain, per reachable configuration (vacuum flag, presence guards)",
+    category="other", design="DESIGN.md section 9.2 and section 4 C09",
     text="The written form of uup/udown, h (three index positions), Tdown4/Tup4/Ttrace, rho_n, flux, stress, pressures, conserved densities equals the textbook definitions term by term with correct index placement.",
     note="The closed forms E = rho h W^2 - p etc. are consequences, not separately decided."),
  "C10": dict(
-    technique="static analysis: tensor typing, explicit-index symmetry analysis of the Weyl formula, canonicalised Newman-Penrose contraction table, invariant polynomials, alias analysis (ast, exact arithmetic)",
-    category="other", design="DESIGN.md section 4 C10",
+    technique="static analysis: abstract interpretation of the tensor code (ast) into exact componentwise polynomials over opaque field atoms with per-slot index variance; einsum index-discipline rules; equality with reference index formulas evaluated in the same domain, per reachable configuration (vacuum flag, presence guards); Riemann-symmetry analysis on the component polynomials, Newman-Penrose contraction table by role on a generic tetrad, Gram-Schmidt sign rule, invariant polynomials, alias analysis",
+    category="other", design="DESIGN.md section 9.2 and section 4 C10",
     text="Both Weyl constructions are typed; the Riemann-based formula is antisymmetric in each pair, pair-symmetric and trace-free on index patterns; E/B formulas match reference term lists; Weyl scalars are the NP contractions by role; tetrad Gram-Schmidt steps have the signs required by the metric signature; invariants are the stated polynomials.",
     note="Convergence, numerical orthonormality and tetrad-independence are not decided."),
  "C11": dict(
     technique="static analysis: ordering provenance in join_chunks, storage-order convention table over both readers, restart-selection flow, name-map table agreement, definite assignment (ast + CFG + def-use)",
-    category="other", design="DESIGN.md section 4 C11",
+    category="other", design="DESIGN.md section 9.2 and section 4 C11",
     text="Structural clauses: every multi-chunk concatenation is ordered by a sort of the origin component paired with its axis; ghost trimming pairs axis i with nghostzones[2-i]; latest-restart selection; name maps mutually consistent; no use of a possibly-unassigned or stale loop variable.",
     note="Equality of returned data with file contents is not decided; ghost width >= 1 assumed."),
  "C12": dict(
-    technique="static analysis: row-index provenance (def-use closure) in cache writer and filler, writer/reader template agreement (ast)",
-    category="other", design="DESIGN.md section 4 C12",
+    technique="static analysis: row-index provenance (def-use closure) in cache writer and filler, writer/reader template agreement, one-entry-per-iteration column rule, dataset write discipline (ast + def-use)",
+    category="other", design="DESIGN.md section 9.2 and section 4 C12",
     text="The index used to pick a row when filing into or filling from the cache is data-dependent on the iteration column of the dictionary it indexes; path/file/dataset-key templates of writer and reader agree.",
     note="Value equality across arbitrary call histories not decided."),
  "C13": dict(
     technique="static analysis: row-index provenance, template agreement, guard/use agreement, one-append-per-column path counting, dataset write discipline, argument immutability (ast + CFG)",
-    category="other", design="DESIGN.md section 4 C13",
+    category="other", design="DESIGN.md section 9.2 and section 4 C13",
     text="Structural clauses of the save/read round trip decided on all paths.",
     note="HDF5 fidelity (h5py) trusted."),
  "C14": dict(
-    technique="static analysis: per-step isolation (fresh instance dominance, no escape), must-freeze-before-read on the CFG, row-permutation rule, estimator table agreement (ast + CFG)",
-    category="other", design="DESIGN.md section 4 C14",
-    text="Structural clauses: each step computes on an instance created in that invocation whose inputs are frozen before anything can run on it; rows are permuted whole; each estimate column applies the estimator bound to its name to the column named in its key.",
+    technique="static analysis: per-step isolation (fresh instance dominance, no escape), must-freeze-before-read event simulation, install-before-request order, row coverage and row-permutation rules, estimator table agreement, alias analysis of the arguments (ast + dataflow)",
+    category="other", design="DESIGN.md section 9.2 and section 4 C14",
+    text="Structural clauses: each step computes on an instance created in that invocation whose inputs are frozen and whose custom variables are all installed before anything is requested from it; every input row is processed; rows are permuted whole; each estimate column applies the estimator bound to its name to the column named in its key; already-present requests are skipped, input columns are not written.",
     note="Equality with a fresh computation is a consequence of C01-C03 + isolation, not separately decided."),
  "C15": dict(
-    technique="static analysis: presentation-flag independence, skip-guard antisymmetry soundness, fill-symmetry tables, explicit-index reference term agreement, alias analysis of cached values (ast, exact arithmetic)",
-    category="other", design="DESIGN.md section 4 C15",
-    text="Every simplify-branch is value-preserving; every skipped component is zero by a symmetry of that tensor in that index position; mirrored fills are exactly the tensor's symmetries; each explicit-index formula equals the textbook term set in canonical form; no method writes into a cached object.",
-    note="CAS-level equality with an independent evaluation not decided."),
+    technique="static analysis: abstract interpretation of AurelCoreSymbolic (loops, done-tables, skips and mirrored fills unrolled exactly) on a generic non-diagonal metric of dimension 2, 3, 4 for both simplify values and both outcomes of every cache guard; componentwise equality with the textbook formulas; fill-symmetry and flag-independence rules; alias analysis of cached values (ast, exact arithmetic)",
+    category="other", design="DESIGN.md section 9.2 and section 4 C15",
+    text="Each of the ten symbolic quantities equals its textbook definition component by component for a generic metric, independently of the simplify flag and of which intermediates are cached; every skipped component is zero by a symmetry, mirrored fills are exactly the tensor's symmetries; no method writes into a cached object.",
+    note="Derivatives are opaque atoms (d_k of a component): agreement is of the written formula with the definition, not of a CAS evaluation for a particular metric; sympy's own simplify/diff are trusted."),
  "C16": dict(
-    technique="static analysis: count-determinism lint of coordinate arrays, extent/size provenance, meshgrid convention, axis-sibling isomorphism, symmetric-trim rule (ast)",
-    category="other", design="DESIGN.md section 4 C16",
+    technique="static analysis: exact polynomial form of the coordinate arrays, arange count-determinism lint, extent/size provenance, meshgrid convention, axis-sibling isomorphism, axis-letter/index pairing, symmetric-trim rule, written form of the Cartesian->spherical map over function atoms (ast, exact arithmetic)",
+    category="other", design="DESIGN.md section 9.2 and section 4 C16",
     text="Count/shape/extent clauses decided for all parameters: N points per axis at min+i*d, extents are the last grid point, sizes derive from the arrays, axis letters pair with indices consistently, trims are symmetric multiples of mask_len.",
-    note="Cartesian<->spherical round trip (trigonometry) is not decided."),
+    note="The written Cartesian->spherical formulas are decided (r, arccos(z/r), sign(y) arccos(x/rho)); the numerical round trip to rounding is not."),
  "C17": dict(
-    technique="static analysis: numeric/symbolic sibling-branch agreement by polynomial normalisation over function atoms; static-metric <=> zero-K dependence rule (ast)",
-    category="other", design="DESIGN.md section 4 C17",
-    text="Clause 1 (the numerical and symbolic forms of every bundled solution agree) is decided exactly on the expression trees; one necessary condition on K.",
-    note="K = -(1/2 alpha) d_t gamma and Einstein's equations for the matter content are NOT decided (they need differentiation and algebraic simplification: computer algebra, not static analysis)."),
+    technique="static analysis: numeric/symbolic sibling-branch agreement by polynomial normalisation over function atoms; component/axis pairing; static-metric <=> zero-K dependence rule; K = -(1/2 alpha) d_t gamma by syntactic differentiation of the expression trees (chain/product/power rules, exact normal forms, two declared facts) (ast, exact arithmetic)",
+    category="other", design="DESIGN.md section 9.2 and section 4 C17",
+    text="Decided on the expression trees: the numerical and symbolic forms of every bundled solution agree; K_ij is -(1/(2 alpha)) d_t of the module's own gamma_ij (zero shift) for 7 of 9 modules; components named ab are built from axes a and b.",
+    note="Einstein's equations for the matter content and the published closed-form scalars are NOT decided (second derivatives, inverse metrics and simplification of transcendental expressions: computer algebra, not static analysis); declared facts: LCDM da/dt = a H, Szekeres dZ/dt = dtZ; 2 modules' K are listed unverified."),
  "C18": dict(
-    technique="static analysis: token-collision analysis of parser guards vs writer templates, abstract round trip of the catalogue format, regex group-structure agreement, module-state write rule, definite assignment (ast, re._parser)",
-    category="other", design="DESIGN.md section 4 C18",
-    text="Format-level clauses decided for all names: no parser guard token can occur in a free hole of another line's template; the parser's split chain inverts each writer template; regex groups used exist and are tested; no scan result is cached in module state.",
-    note="That a scan reports what is on disk is not decided."),
+    technique="static analysis: token-collision analysis of parser guards vs writer templates with hole alphabets, protocol-order rule, regex group-structure agreement, separator rule, module-state write rule, alias analysis of the merged overview, definite assignment / stale values across restarts (ast, re._parser, dataflow)",
+    category="other", design="DESIGN.md section 9.2 and section 4 C18",
+    text="Format-level clauses decided for all names: no parser guard token can occur in a free hole of another line's template; the restart header is written first; regex groups used exist, are digits where converted and are tested when optional; the key separator is outside the name alphabet; no scan result is cached in module state; per-restart entries are not updated through the merged overview; no stale value crosses restarts.",
+    note="That a scan reports what is on disk, and the field-by-field round trip of iterations.txt, are not decided."),
  "C19": dict(
-    technique="static analysis: tensor index-type checking and reference term agreement on the kinematics chain (ast, exact arithmetic)",
-    category="other", design="DESIGN.md section 4 C19",
+    technique="static analysis: abstract interpretation of the tensor code (ast) into exact componentwise polynomials over opaque field atoms with per-slot index variance; einsum index-discipline rules; equality with reference index formulas evaluated in the same domain, per reachable configuration (vacuum flag, presence guards)",
+    category="other", design="DESIGN.md section 9.2 and section 4 C19",
     text="Necessary conditions: index discipline and written form of st_covd_udown4 (time derivative of u_mu), acceleration, projection, expansion, shear, vorticity.",
     note="The identities themselves (theta = -K, ...) and their convergence are not decided."),
  "C20": dict(
     technique="static analysis: must-pass-through bounds refusal on the CFG, analysis/synthesis sibling agreement, angle-role flow, loop-carried-state rule (ast + CFG)",
-    category="other", design="DESIGN.md section 4 C20",
+    category="other", design="DESIGN.md section 9.2 and section 4 C20",
     text="Three structural clauses: extrapolating interpolator is only reachable through the bounds refusal; decomposition and reconstruction iterate the same (l,m) and call sYlm identically (conjugated in analysis); inclination/azimuth values flow only into parameters of their role; per-radius values do not carry over between radii.",
     note="Orthonormality, normalisation and phase of sYlm, interpolation exactness and convergence are NOT decided."),
 }
